@@ -24,6 +24,7 @@ package ipnisync
 //@   loop 2: invariant s.noPath == (old(s.noPath) || fellBack) && (fellBack ==> !old(s.noPath) && s.plainHTTP) && nonnilelems(s.urls) && s.client != nil && fetchURL != nil
 //@   ensures result != nil ==> s.noPath == old(s.noPath)
 //@   ensures s.noPath != old(s.noPath) ==> s.noPath && s.plainHTTP
+//@   at call cb#1: assert resp.StatusCode == 200 && arg0 == resp.Body
 //@   ensures-local count("call:cb") <= 1
 //@   ensures-local result == nil ==> count("call:cb") == 1
 
